@@ -57,6 +57,21 @@ def run(rep, tier, seed):
                 add({"rparts": rparts, "cond": c, "cast": None}, doc, "raw" if k % 3 else "Data")
     for _ in range(2500 if tier == "quick" else 80000):
         doc = gen.document(rng, depth=rng.choice([2, 3, 3, 4]), strish=0.65)
+        if rng.random() < 0.12:
+            # several selected nodes that are == but of different type, under a type-sensitive condition
+            tw = gen.twins(rng)
+            L = lambda fn, pre, *a: ("leaf", {"datum": "value", "pre": pre, "fn": fn, "actuals": list(a), "akw": {}})  # noqa: E731
+            sens = [L("is_instance", "none", bool), L("is_instance", "none", float), L("is_instance", "none", int),
+                    L("equal_to", "dtype", int), L("in_", "dtype", [bool, float]), L("not_equal_to", "dtype", bool)]
+            cond = rng.choice(sens)
+            if rng.random() < 0.4:
+                cond = (rng.choice(["and", "or", "xor"]), cond, rng.choice(sens + [L("greater_than_or_equal_to", "none", 1)]))
+            fan = {"rk": "list" if isinstance(tw, list) else "map", "key": None, "index": None, "value": None, "cond": None, "label": None}
+            if rng.random() < 0.5:
+                add({"rparts": [fan], "cond": cond, "cast": None}, tw, rng.choice(["raw", "Data"]))
+            else:
+                add({"rparts": [("prim", "flags"), fan], "cond": cond, "cast": None}, {"flags": tw, "n": 1}, "raw")
+            continue
         add(ruledrv.rule_recipe(rng, doc), doc, rng.choice(["raw", "Data"]))
     ruledrv.judge(rep, events, recipes, ruledrv.default_key)
     from harness import repotrace
